@@ -439,5 +439,36 @@ for cont in (False, True):
 sys.exit(1 if bad else 0)
 '''
 READ_REPLAYS['_appearing_file'] = lambda kw: REPLAY_APPEAR
+REPLAY_ALL_DIRS = '''
+# sessions interleaved over top-level directories (X, Y, X): one read with its ends in X and its interior in Y returns the union
+from vlib import build
+import numpy as np, tempfile, os, shutil, sys, itertools, warnings
+warnings.simplefilter('ignore')
+drf = build.load_pkg()
+S = 10**10; bad = 0
+top = tempfile.mkdtemp(); dirs = [os.path.join(top, x) for x in ('X', 'Y', 'Z')]
+plan = {0: [(0, 100), (200, 100)], 1: [(100, 100)], 2: []}
+for i, d in enumerate(dirs):
+    os.makedirs(d + '/ch')
+    for (a, n) in plan[i]:
+        w = drf.DigitalRFWriter(d + '/ch', 'i4', 3600, 1000, S, 100, 1, 'u', is_complex=False, is_continuous=False, marching_periods=False)
+        w.rf_write(np.arange(a, a + n, dtype='i4'), next_sample=a); w.close()
+    if not plan[i]:
+        w = drf.DigitalRFWriter(d + '/ch', 'i4', 3600, 1000, S, 100, 1, 'u', is_complex=False, is_continuous=False, marching_periods=False)
+        w.rf_write(np.arange(900, 910, dtype='i4'), next_sample=900); w.close()
+for order in itertools.permutations(range(3)):
+    r = drf.DigitalRFReader([dirs[i] for i in order])
+    for (q0, q1) in ((0, 299), (50, 250), (99, 200)):
+        try:
+            data = r.read(S + q0, S + q1, 'ch'); lens = r.get_continuous_blocks(S + q0, S + q1, 'ch')
+            got = [(int(k) - S, len(v)) for k, v in data.items()]; gl = [(int(k) - S, int(v)) for k, v in lens.items()]
+            ok = got == [(q0, q1 - q0 + 1)] and gl == got and np.array_equal(np.asarray(list(data.values())[0]).ravel(), np.arange(q0, q1 + 1))
+        except Exception as e:
+            ok = False; got = '%s: %s' % (type(e).__name__, e); gl = None
+        if not ok: print('directories in order', order, 'read(%d, %d) ->' % (q0, q1), got, 'blocks ->', gl, 'expected one block of', q1 - q0 + 1); bad = 1
+shutil.rmtree(top)
+sys.exit(1 if bad else 0)
+'''
+READ_REPLAYS['_read_all_dirs'] = lambda kw: REPLAY_ALL_DIRS
 READ_REPLAYS['_bounds_scan'] = lambda kw: REPLAY_BOUNDS_SCAN % (kw,)
 READ_REPLAYS['_combine3'] = READ_REPLAYS['_combine2_arrays'] = lambda kw: at_bases(REPLAY_MERGE % (kw,))
